@@ -176,7 +176,8 @@ CHECKS = {
               "(permuted integer labels from five families, other insertion histories, extra larger hyperedges, isolated nodes): "
               "representatives connected, every class exactly once, every count = the specification's census, same census across "
               "variants; directed: reported tuple is the canonical encoding, each class once, count <= node sets showing it, same "
-              "census across variants."),
+              "census across variants. Families of look-alike directed patterns (equal simple invariants, not isomorphic) on disjoint "
+              "node sets and nested 3-in-4 undirected families on 5-6 nodes are part of the inputs."),
         note=TB + " Integer labels only and disjoint source/target sets, as the statement restricts. For directed hypergraphs the "
              "statement does not say which node sets are visited: equality with the enumeration the anchors describe is reported as "
              "information (0 mismatches), not as a verdict. Hypergraphs on 5-7 nodes are sampled; the sampled approximate census and "
@@ -193,7 +194,8 @@ CHECKS = {
               "(Trace_C15) value by value; Oracle_C15 returns the exact rationals for the float comparison. fit() is run with the same seed "
               "and n_iter=1..T with u, w, both or none supplied; TLC re-executes the monitor EMDriver (explored exhaustively with two "
               "must-fail mutants) along every run: FixedStay, FiniteNonNeg, WSymmetric, WDiagonalIfAssortative, Ascent. Exhaustive only for "
-              "the small universes; fits are sampled (for the fit part the assurance is that of an exploration)."),
+              "the small universes; fits are sampled (for the fit part the assurance is that of an exploration). Scale-shifted and two-scale "
+              "parameters (exact powers of two) and models with up to 64 nodes (exact integers, Trace_C15L) are part of the inputs."),
         note=TB + " Real-valued parts decided in Python: the log-likelihood from its definition and the MAP objective (enter TLC as "
              "order-preserving integer ranks, tolerance 1e-9*max(1,|L|), single linkage), byte-identity/finite/symmetry flags; floats "
              "are converted to the nearest fraction with denominator <= 10000, which must reproduce them at 1e-9. Known finding: the plain "
